@@ -133,6 +133,11 @@ func TestPrivateKey(priv []byte) int {
 // ZA calculates the ZA data according to the GMT 0003.2-2012 spec
 // The spec does not tell what to do about empty user ID. So it is accepted as well.
 func ZA(id, pubx, puby []byte) (za []byte, err error) {
+	if len(id) >= 1<<13 {
+		// checked in bytes first: the bit length below is an int and wraps on 32-bit targets for ids of 2^28 bytes and more
+		err = errors.New("entity ID too long")
+		return
+	}
 	entl := len(id) << 3
 	if entl >= 1<<16 {
 		err = errors.New("entity ID too long")
